@@ -128,6 +128,9 @@ SEEDS = [
     'def k { splitters: x, y, z if x == y and y == z or x != z { return "p" weighted 10, "q" weighted 0.5 } '
     'else { if z > -1.5 { return "r" weighted 1 } } }',
     'def l { if "lit" == a { return "t" weighted 1 } else if 3 < a { return "u" weighted 1 } }',
+    # white space *inside* literals is data: tabs, runs of blanks, leading / trailing blanks
+    'def m { salt: "s\tx  y" splitters: u if a == " lead" or a in ("t\tb", "trail  ") { return "g\t1" weighted 1, "g  2" weighted 1 } '
+    'else { return " g3 " weighted 1 } }',
 ]
 
 
